@@ -20,6 +20,10 @@ format expression inside it and composed with the call site.  For PIL / memoryvi
 conventions are a fixed table (trusted): frombuffer(mode, (columns, rows), data, 'raw', rawmode, stride, orientation),
 memoryview.cast(format, shape) C-contiguous, wx.Image(columns, rows), wx.Bitmap(columns, rows).
 An occurrence that fits none of these stops the translation (a new access path needs a model).
+
+Also every site that passes a (width, height) PAIR without the pixel array: `Frame(a, b)`, `<format>.frame_size(a, b)` and the
+stores of `Frame.__init__`: which dimension comes first (the role of an argument is found through the definitions of the
+locals it names; see _role).
 """
 from __future__ import annotations
 
@@ -174,6 +178,84 @@ def _neq_atoms(test: ast.expr, neg: bool, names: dict[str, str], node) -> list[t
             _err(node, 'chained comparison in the size test')
         return out
     _err(node, f'size test of the frame copy not understood: {ast.unparse(test)}')
+
+
+# ------------------------------------------------------------------------------------------------ (width, height) pairs
+def _role(node: ast.expr | None, fn: ast.FunctionDef, depth: int = 0) -> str:
+    """Which dimension an expression derives from: 'W', 'H', 'K<n>' (literal), 'N' (neither), '?' (both / unknown).
+    Attributes `.width` / `.height` and names that cannot be resolved further (parameters, targets of an unpacking, loop
+    variables: names fixed by the API or by the container translator) are classified by their name; a local bound by one
+    plain assignment is classified by the expression it names (`>>=`-style updates keep the role)."""
+    if node is None or depth > 6:
+        return '?'
+    if isinstance(node, ast.Constant):
+        return f'K{node.value}' if type(node.value) is int else 'N'
+    if isinstance(node, ast.Attribute):
+        return 'W' if node.attr == 'width' else 'H' if node.attr == 'height' else 'N'
+    if isinstance(node, ast.Name):
+        defs = [st for st in ast.walk(fn) if isinstance(st, ast.Assign) and any(isinstance(t, ast.Name) and t.id == node.id for t in st.targets)]
+        if len(defs) == 1 and not any(isinstance(n, ast.Name) and n.id == node.id for n in ast.walk(defs[0].value)):
+            return _role(defs[0].value, fn, depth + 1)
+        low = node.id.lower()
+        w, h = 'width' in low, 'height' in low
+        return 'W' if w and not h else 'H' if h and not w else '?' if w and h else 'N'
+    if isinstance(node, ast.BinOp):
+        return _combine([_role(node.left, fn, depth + 1), _role(node.right, fn, depth + 1)])
+    if isinstance(node, ast.Call) and isinstance(node.func, ast.Name) and node.func.id in ('max', 'min', 'int', 'abs') and not node.keywords:
+        return _combine([_role(a, fn, depth + 1) for a in node.args])
+    if isinstance(node, ast.UnaryOp):
+        return _role(node.operand, fn, depth + 1)
+    return '?'
+
+
+def _combine(rs: list[str]) -> str:
+    if '?' in rs:
+        return '?'
+    dims = {r for r in rs if r in ('W', 'H')}
+    if len(dims) > 1:
+        return '?'
+    if dims:
+        return dims.pop()
+    ks = [r for r in rs if r.startswith('K')]
+    return 'N' if not ks or len(rs) > 1 else ks[0]
+
+
+def _role_dim(r: str) -> str:
+    return {'W': 'DW', 'H': 'DH'}.get(r, f'(DK {r[1:]})' if r.startswith('K') and r[1:].isdigit() else 'DForeign')
+
+
+def _pair_sites(funcs) -> list[tuple[str, str, str, str]]:
+    """every call Frame(a, b) / <fmt>.frame_size(a, b) / wx-free constructor of a sized object in vtf.py, and the stores
+    of Frame.__init__: which dimension is passed first"""
+    out: list[tuple[str, str, str, str]] = []
+    for qual, fn in funcs:
+        k = 0
+        for c in ast.walk(fn):
+            if not isinstance(c, ast.Call):
+                continue
+            f = c.func
+            what = 'Frame' if isinstance(f, ast.Name) and f.id == 'Frame' else \
+                   'frame_size' if isinstance(f, ast.Attribute) and f.attr == 'frame_size' else None
+            if what is None:
+                continue
+            b = _bind(c, ['width', 'height'], what)
+            ra, rb = _role(b.get('width'), fn), _role(b.get('height'), fn)
+            if ra.startswith('K') and ra == rb:
+                continue                # a literal square: the order cannot matter
+            k += 1
+            out.append((f'{qual}: {what}(columns, rows) #{k}', _role_dim(rb), _role_dim(ra), '(DK 4)'))
+        if qual == 'Frame.__init__':
+            params = [a.arg for a in fn.args.args][1:]
+            if len(params) != 2:
+                _err(fn, 'Frame.__init__ no longer takes (width, height)')
+            stores = {st.targets[0].attr: st.value for st in ast.walk(fn) if isinstance(st, ast.Assign) and len(st.targets) == 1
+                      and isinstance(st.targets[0], ast.Attribute) and ast.unparse(st.targets[0].value) == 'self'}
+            def which(v):
+                return params.index(v.id) if isinstance(v, ast.Name) and v.id in params else None
+            cols = 'DW' if which(stores.get('width')) == 0 else 'DH' if which(stores.get('height')) == 0 else 'DForeign'
+            rows = 'DH' if which(stores.get('height')) == 1 else 'DW' if which(stores.get('width')) == 1 else 'DForeign'
+            out.append(('Frame.__init__: first argument stored as width, second as height', rows, cols, '(DK 4)'))
+    return out
 
 
 def access_info() -> dict:
@@ -368,6 +450,7 @@ def access_info() -> dict:
                     atoms += _neq_atoms(st.test, False, names, st)
             guards.append((f'{qual}: copy from {q}', atoms))
 
+    paths += _pair_sites(funcs)
     return {'paths': paths, 'allocs': allocs, 'guards': guards, 'census': sorted(set(census)), 'ppm_header': list(ppm_header)}
 
 
